@@ -15,7 +15,7 @@ and signature octets.
 -/
 set_option linter.unusedSimpArgs false
 namespace C05
-open CTV CTV.SigV CTV.SigInput CTV.Der
+open CTV CTV.SigV CTV.SigInput CTV.DerSig
 
 /-- **verify_iff.** `tls.VerifySignature` answers nil exactly when: the declared hash is one of RFC 5246's six, the
 declared signature algorithm is the one of the key's type, the key is not a nil pointer, and either (RSA) the
